@@ -120,6 +120,30 @@ theorem greedy_dominated (R : P → P → Prop) (order : List P) (hR : order.Pai
     ∀ c ∈ order, c ∈ suppress near order ∨ ∃ a ∈ suppress near order, near a c = true ∧ R a c :=
   suppress_dominated near R order hR
 
+/-- the fold behind `suppress`, started from `kept`, appends a continuation none of whose items is suppressed -/
+theorem suppress_fold_of_separated (kept l : List P) (h : (kept ++ l).Pairwise (fun a b => near a b = false)) :
+    l.foldl (suppressStep near) kept = kept ++ l := by
+  induction l generalizing kept with
+  | nil => simp
+  | cons c cs ih =>
+    have hc : kept.any (fun a => near a c) = false := by
+      rw [List.any_eq_false]
+      intro a ha
+      have := (List.pairwise_append.1 h).2.2 a ha c (List.mem_cons_self)
+      simp [this]
+    simp only [List.foldl_cons, suppressStep, hc, Bool.false_eq_true, if_false]
+    rw [ih (kept ++ [c]) (by simpa using h)]
+    simp
+
+/-- a list in which no item suppresses a later one is returned unchanged -/
+theorem greedy_fixed_of_separated (l : List P) (h : l.Pairwise (fun a b => near a b = false)) : suppress near l = l := by
+  have := suppress_fold_of_separated near [] l (by simpa using h)
+  simpa [suppress] using this
+
+/-- **cleaning is idempotent**: suppressing the kept list again (in the order it was returned) removes nothing -/
+theorem greedy_idempotent (order : List P) : suppress near (suppress near order) = suppress near order :=
+  greedy_fixed_of_separated near _ (greedy_separated near order)
+
 end Greedy
 
 /-! ### distance cleaning -/
